@@ -141,10 +141,10 @@ fn check(rep: &Report, acc: &mut Acc, it: &Item, rank: u64) {
 
 pub fn run(tier: Tier) -> i32 {
     let rep = Report::new("C19", tier);
-    rep.set_rule("corpus = every packet the real encapsulator produces in the small regimes: encap over PDU lengths 0..=12 x buffers 0..=32 (thorough 0..=96 x 0..=128) and PDU lengths around the 4095 limit x buffers 4090..=70000 (with their continuation packets) x labels {6B, 3B, the all-zero 3B label, broadcast, explicit re-use} x prior {fresh, same label (substitution)} x fragment ids (all 256 for PDU length <= 2, else 3), encap_frag over every position and buffer for PDU lengths 0..=12 (thorough 0..=48) x all 256 ids (for small cells), encap_ext over all chains of length <= 2 (thorough 3) x labels x buffers; each packet alone and followed by 6 tails; peek and decap run on the same receiver (context primed for continuation packets); distinct = (kind, label type, peek result)");
+    rep.set_rule("corpus = every packet the real encapsulator produces in the small regimes: encap over PDU lengths 0..=32 x buffers 0..=56 (thorough 0..=96 x 0..=128) and PDU lengths around the 4095 limit x buffers 4090..=70000 (with their continuation packets) x labels {6B, 3B, the all-zero 3B label, broadcast, explicit re-use} x prior {fresh, same label (substitution)} x fragment ids (all 256 for PDU length <= 2, else 3), encap_frag over every position and buffer for PDU lengths 0..=20 (thorough 0..=48) x all 256 ids (for small cells), encap_ext over all chains of length <= 2 (thorough 3) x labels x buffers; each packet alone and followed by 6 tails; peek and decap run on the same receiver (context primed for continuation packets); distinct = (kind, label type, peek result)");
     // first calls
-    let maxp = if tier.thorough() { 96usize } else { 12 };
-    let maxb = if tier.thorough() { 128usize } else { 32 };
+    let maxp = if tier.thorough() { 96usize } else { 32 };
+    let maxb = if tier.thorough() { 128usize } else { 56 };
     let cells: Vec<(usize, Lbl, Prior)> = (0..=maxp).flat_map(|p| [L6A, L3A, L3Z, Lbl::Bcast, Lbl::ReUse].into_iter().flat_map(move |l| [Prior::Fresh, Prior::Same].into_iter().map(move |pr| (p, l, pr)))).filter(|&(_, l, pr)| pr == Prior::Fresh || l.is_addr()).collect();
     cells.par_iter().for_each(|&(p, l, prior)| {
         let mut acc = Acc::default();
@@ -220,7 +220,7 @@ pub fn run(tier: Tier) -> i32 {
     });
     rep.part(json!({"part":"special label values","labels":special_labels().iter().map(|l| l.short()).collect::<Vec<_>>()}));
     // continuation calls
-    (0..=(if tier.thorough() { 48usize } else { 12 })).collect::<Vec<_>>().par_iter().for_each(|&p| {
+    (0..=(if tier.thorough() { 48usize } else { 20 })).collect::<Vec<_>>().par_iter().for_each(|&p| {
         let mut acc = Acc::default();
         let pd = pdu(p, 0);
         let enc = dvb_gse_rust::gse_encap::Encapsulator::new(DefaultCrc {});
@@ -239,7 +239,7 @@ pub fn run(tier: Tier) -> i32 {
         }
         rep.merge(acc);
     });
-    rep.part(json!({"part":"encap_frag packets","pdu_lengths":"0..=12","positions":"all","buffers":"0..=p+10","frag_ids":"all 256 on a subset of cells"}));
+    rep.part(json!({"part":"encap_frag packets","pdu_lengths":if tier.thorough() { "0..=48" } else { "0..=20" },"positions":"all","buffers":"0..=p+10","frag_ids":"all 256 on a subset of cells"}));
     // extension chains
     let mut ch = chains(if tier.thorough() { 3 } else { 2 });
     for e in crate::props::c06::boundary_exts() {
